@@ -58,6 +58,9 @@ pub enum Dir {
     ReplaceAwayOld,
     /// n insert+remove pairs of fresh keys
     Churn(usize),
+    /// start a resize with `reserve` so that every element sits in the old table and the main
+    /// table is empty
+    ReserveSplit,
     /// one op of the given code chosen by the random-tail generator
     Tail(usize),
 }
@@ -154,7 +157,13 @@ impl Gen {
                     }
                 }
                 8 => Dir::Churn(1 + rng.usize(10)),
-                _ => Dir::InsertNew(1),
+                _ => {
+                    if rng.chance(1, 2) {
+                        Dir::ReserveSplit
+                    } else {
+                        Dir::InsertNew(1)
+                    }
+                }
             };
             script.push(d);
         }
@@ -526,6 +535,15 @@ impl Gen {
                         let k = self.existing_key(mon).unwrap_or(0);
                         return Some(Op::k(Remove, k));
                     }
+                }
+                Dir::ReserveSplit => {
+                    advance(self);
+                    let st = mon.state();
+                    if st.old.is_some() || mon.map.is_empty() {
+                        continue;
+                    }
+                    let free = (mon.map.capacity() - mon.map.len()) as u64;
+                    return Some(Op::n(Reserve, free + 1));
                 }
                 Dir::Tail(n) => {
                     if self.progress >= n {
